@@ -42,16 +42,22 @@ def _collapse_invariants(
     invariants = []  # type: List[Contract]
 
     # Add invariants of the bases
+    bases_have_invariants_dunder = False
     for base in bases:
         if hasattr(base, invariants_dunder):
+            bases_have_invariants_dunder = True
             invariants.extend(getattr(base, invariants_dunder))
 
     # Add invariants in the current namespace
     if invariants_dunder in namespace:
         invariants.extend(namespace[invariants_dunder])
 
-    # Change the final invariants in the namespace
-    if invariants:
+    # Change the final invariants in the namespace.
+    #
+    # The class must get its own list whenever one of its bases has a list, even if the list is empty.
+    # Otherwise, the class would share the (empty) list with the base through the attribute look-up,
+    # and the invariants added later to the class would leak to the base and to its other descendants.
+    if invariants or bases_have_invariants_dunder:
         namespace[invariants_dunder] = invariants
 
     # endregion
